@@ -105,6 +105,21 @@ func genAltCase(r *gen.Rand, n int) AltCase {
 		}
 	}
 	c.CondText = strings.Join(leaves, gen.Pick(r, []string{" AND ", " AND ", " OR "}))
+	if inf := append(append([]string{}, c.DBSK...), c.SK...); len(inf) > 0 && r.Chance(1, 2) {
+		// bind every column of the key in force (database's, else the measurement's) by equality: the query prunes to one shard
+		if len(c.DBSK) > 0 {
+			inf = c.DBSK
+		}
+		var parts []string
+		for _, k := range inf {
+			if k == "msg" {
+				parts = append(parts, "msg = "+quote(gen.Pick(r, []string{"x", "y", "a"})))
+			} else {
+				parts = append(parts, `"`+k+`" = `+quote(gen.Pick(r, valPool[:3])))
+			}
+		}
+		c.CondText = strings.Join(parts, " AND ")
+	}
 	cond, err := influxql.ParseExpr(c.CondText)
 	if err != nil {
 		c.Oracle = append(c.Oracle, "setup: "+err.Error())
